@@ -46,8 +46,9 @@ class Findings:
             d = json.load(open(p))
             self.known = list(d.get('known', []))
         import glob
-        for q in sorted(glob.glob(os.path.join(VERIF, 'known_findings.d', '*.json'))):
-            self.known += json.load(open(q)).get('known', [])
+        have = {(k['id'], k['property']) for k in self.known}
+        for q in sorted(glob.glob(os.path.join(VERIF, 'known_findings.d', '*.json'))):     # per-property source parts
+            self.known += [k for k in json.load(open(q)).get('known', []) if (k['id'], k['property']) not in have]
         self.hit = {}
 
     def match(self, pid, key):
